@@ -43,6 +43,9 @@ def plan(tier, seed):
             specs.append(("sampled67", 300000 // 16, i))
     for i in range(4):
         specs.append(("multifile", (4000 if tier == "quick" else 40000) // 4, i))
+    for i in range(8):
+        specs.append(("chains", i, 8))
+    specs.append(("tails",))
     return specs
 
 
@@ -260,6 +263,65 @@ def run_shard(ctx, spec):
             run_cases(ctx, batch, kind)
         if kind == "random":
             ctx.sample({"family": "random", "file": batch[-1]["files"][0] if batch else random_file_case(rng)["files"][0]}, limit=1)
+    elif kind == "chains":
+        # #if / #elif ... / #else chains of 2-4 (thorough 5) sections, every section with its own condition and its own
+        # #define: exactly the first true section is selected, whatever holds further down the chain
+        _, idx, n = spec
+        conds = ["A", "B", "C", "!A", "!B", "A && B", "A || C"]
+        batch = []
+        count = 0
+        for k in ((2, 3, 4) if ctx.tier == "quick" else (2, 3, 4, 5)):
+            for combo in itertools.product(conds, repeat=k):
+                count += 1
+                if count % n != idx:
+                    continue
+                if k >= 4 and ctx.tier == "quick" and ((count // n) + ctx.seed) % 6 != 0:
+                    continue
+                if k >= 5 and ((count // n) + ctx.seed) % 4 != 0:
+                    continue
+                for with_else in (True, False):
+                    lines = ["module M"]
+                    for j, cnd in enumerate(combo):
+                        lines.append(("#if " if j == 0 else "#elif ") + cnd)
+                        lines.append("#define S%d" % j)
+                        lines.append("struct L%d {}" % (len(lines) + 1))
+                    if with_else:
+                        lines.append("#else")
+                        lines.append("struct L%d {}" % (len(lines) + 1))
+                    lines.append("#endif")
+                    # what the selected section defined must be visible afterwards, and nothing else
+                    for j in range(k):
+                        lines.append("#if S%d" % j)
+                        lines.append("struct L%d {}" % (len(lines) + 1))
+                        lines.append("#endif")
+                    for defs in SUBSETS:
+                        batch.append({"files": [lines], "defines": defs})
+                        ctx.note_case(("chain", combo, with_else, defs))
+                        ctx.stats["chain_cases"] += 1
+                if len(batch) >= 800:
+                    run_cases(ctx, batch, "chains")
+                    batch = []
+        if batch:
+            run_cases(ctx, batch, "chains")
+    elif kind == "tails":
+        # every directive of a well-formed skeleton followed by every kind of tail: blanks and // comments are fine, anything
+        # else is a malformed directive (or, after #if / #elif, part of the expression) and must be reported
+        skeleton = ["module M", "#define Q", "#if A", "struct L4 {}", "#elif B", "struct L6 {}", "#else", "struct L8 {}", "#endif",
+                    "#undef Q", "#if Q", "struct L12 {}", "#endif", "struct L14 {}"]
+        tails = ["", " ", "\t", " // c", "// c", " /* c */", " x", " A", " B", " 1", " ;", " !", " (", " )", " && B", " || A", " #define B",
+                 " if B", " #", " struct X {}", " \\", " \"s\"", " ::", " é", " /", " //", " ///", "\u00a0", "\u3000x", " else", " endif"]
+        batch = []
+        for li, line in enumerate(skeleton):
+            if not line.startswith("#"):
+                continue
+            for tail in tails:
+                lines = list(skeleton)
+                lines[li] = line + tail
+                for defs in SUBSETS:
+                    batch.append({"files": [lines], "defines": defs})
+                    ctx.note_case(("tail", li, tail, defs))
+                    ctx.stats["tail_cases"] += 1
+        run_cases(ctx, batch, "tails")
     elif kind == "multifile":
         _, count, idx = spec
         rng = ctx.rng("multi/%d" % idx)
@@ -395,10 +457,12 @@ def main(tier, seed):
               "present in the AST and their spans are compared with the reference preprocessor; malformed structures must yield "
               "E002. Families: all sequences of <= %d lines over a 13-letter alphabet x all 8 subsets of {A,B,C}; all expressions "
               "of depth <= %d with malformed neighbours x 8 valuations; random files (nesting <= 5, indentation, trailing comments, "
-              "CRLF, garbage in removed regions, planted lints); multi-file leak tests. distinct_nontrivial = distinct (file text, "
+              "CRLF, garbage in removed regions, planted lints); multi-file leak tests; all #if/#elif chains of 2-3 sections (sampled: 4, "
+              "thorough 5) over 7 conditions with and without #else, each section with its own #define probed afterwards, x 8 "
+              "valuations; every directive of a well-formed skeleton x 31 line tails. distinct_nontrivial = distinct (file text, "
               "-D set) pairs containing at least one directive" % (maxlen, 2 if tier == "quick" else 3)),
         required={"wellformed_cases": 1000, "malformed_cases": 500, "probes_expected": 1000, "probes_removed": 1000,
-                  "expression_cases": 500, "multifile_cases": 50, "diagnostic_positions_checked": 50},
+                  "expression_cases": 500, "multifile_cases": 50, "diagnostic_positions_checked": 50, "chain_cases": 5000, "tail_cases": 1000},
         assumptions=["expression semantics: '&&' and '||' equal precedence, left-associative, '!' only leading an (sub)expression "
                      "(named as deliberate in the property's why_tests_cant)",
                      "a '#'-first line inside a block comment is not generated (the rule is purely line based)"],
